@@ -4,6 +4,10 @@ from pyvc.tables import Gen
 from pyvc.unit import NotGenerated
 
 
+REVIEWED_CACHES = {"core._get_line_start_charnos", "core._group_nodes_in_scope", "core._issubclas_cache", "core._make_match_type", "core.compile_template", "core.is_valid_python",
+                   "core.parse", "core.parse_line_length_from_pyproject_toml", "tracing.trace_origin"}
+
+
 def generate(g: Gen):
     from pyvc import frame
     pkg, res = frame.analyse()
@@ -25,6 +29,11 @@ def generate(g: Gen):
             else:
                 # unclassifiable receiver: undecided, never a violation
                 g.obligs.append(_undecided(g, f"{key}:frame:{name}@L{line}", line))
+    # every cache is a place where a history can leak: the ownership rules were reviewed against the caches below (what they hand out is an AST, a
+    # compiled template, a tuple, a bool or a string).  A cache that is not on the list hands out values of an unreviewed kind (an iterator is
+    # consumed by reading it): undecided, and the history stand-in decides.
+    for k in cached:
+        g.oblige_text("frame", f"cached-function-hands-out-a-reviewed-kind-of-value:{k}", k in REVIEWED_CACHES, pkg.funcs[k].node.lineno if hasattr(pkg.funcs[k], "node") else 0)
     if n < 300:
         raise NotGenerated(f"only {n} write sites found")
     g.lines = None
